@@ -154,6 +154,63 @@ def cfgOfJson (j : Json) : Except String Cfg := do
     | _ => throw s!"unknown order {order}"
   pure ⟨raising, allow, pick⟩
 
+
+/-! op "location_trees": {"tables": [{"loc": n, "sheet": null|str, "row": n,
+                                      "history": [[spec, null | [loc, null | [sheet|null, row]]], …]}, …]}
+    answers the forest: [{"key": [loc, null | [sheetKey, row]], "children": [{"leaf": i} | node, …]}, …] -/
+
+def anchorOfJson (j : Json) : Except String Anchor := do
+  let a ← j.getArr?
+  match a.toList with
+  | [l, p] => do
+    let loc ← l.getNat?
+    match p with
+    | .null => pure ⟨loc, none⟩
+    | _ => do
+      let q ← p.getArr?
+      match q.toList with
+      | [sh, r] => do pure ⟨loc, some (← getOptStr sh, ← r.getNat?)⟩
+      | _ => throw "bad anchor position"
+  | _ => throw "bad anchor"
+
+def itemOfHistory : List Json → Except String Item
+  | [] => throw "empty history"
+  | [j] => do
+    let a ← j.getArr?
+    match a.toList with
+    | [s, .null] => do pure (.root (← s.getStr?).toList)
+    | _ => throw "history does not end at a root"
+  | j :: rest => do
+    let a ← j.getArr?
+    match a.toList with
+    | [s, src] => do
+      let anchor ← anchorOfJson src
+      let parent ← itemOfHistory rest
+      pure (.inc (← s.getStr?).toList anchor parent)
+    | _ => throw "bad history step"
+
+def originOfJson (j : Json) : Except String Out := do
+  let loc ← getNat j "loc"
+  let sheet ← getOptStr (← j.getObjVal? "sheet")
+  let row ← getNat j "row"
+  let item ← itemOfHistory (← getArr j "history")
+  pure ⟨loc, sheet, ⟨.table, row, [], []⟩, item⟩
+
+def keyToJson (k : Key) : Json :=
+  arr [nat k.loc, match k.pos with
+    | none => Json.null
+    | some (sh, r) => arr [str sh, nat r]]
+
+def renderNode (buf : Buf) : Nat → Key → Json
+  | 0, k => Json.mkObj [("key", keyToJson k), ("children", "DEPTH-EXCEEDED")]
+  | fuel + 1, k =>
+    match buf.find? (fun n => n.key == k) with
+    | none => Json.mkObj [("key", keyToJson k), ("children", "MISSING-NODE")]
+    | some n => Json.mkObj [("key", keyToJson k), ("children", arr (n.children.map fun c =>
+        match c with
+        | .leaf i => Json.mkObj [("leaf", nat i)]
+        | .node k' => renderNode buf fuel k'))]
+
 end Drv.Ld
 
 namespace Drv
@@ -181,6 +238,10 @@ def handleLoad (op : String) (j : Json) : Option (Except String Json) :=
       | _ => throw "bad protocol entry"
     let spec ← getStr j "spec"
     pure (nat (dispatch (handlersOf add) spec))
+  | "location_trees" => some do
+    let ts ← (← getArr j "tables").mapM originOfJson
+    let buf := makeLocationTrees ts
+    pure (arr ((treeRoots buf).map fun n => renderNode buf (buf.length + 1) n.key))
   | "sheet_blocks" => some do
     let rows ← rowsOfJson (← j.getObjVal? "rows")
     pure (arr ((Sheet.ofRows none true rows).blocks.map fun b =>
